@@ -1382,3 +1382,113 @@ def update_pilot(case, rp):
                             input=dict(notifications=list(seq), start='NEW'),
                             found_by='exhaustive native enumeration of notification sequences up to length 3 (%d tried)' % n)
     return dict(confirmed=False, detail='%d notification sequences hold natively' % n)
+
+
+# ------------------------------------------------------------------------------
+# C12: client-side scheduler
+#
+class _Sess:
+    def __getattr__(self, name):
+        return lambda *a, **k: 'file://localhost/tmp/%s' % name
+
+
+def mk_rr(rp):
+    import threading as mt
+    from radical.pilot.tmgr.scheduler.round_robin import RoundRobin
+    s = object.__new__(RoundRobin)
+    s._log, s._prof = Stub(), Stub()
+    s._pilots_lock = mt.RLock(); s._tasks_lock = mt.RLock(); s._wait_lock = mt.RLock()
+    s._pilots, s._early, s._tasks = dict(), dict(), dict()
+    s._tmgr = 'tmgr.0000'
+    s._session = _Sess()
+    s._pids, s._idx, s._wait_pool = list(), 0, list()
+    s.fwd = list()        # (uid, pilot, state) per advance
+    def advance(things, state=None, **kw):
+        for t in (things if isinstance(things, list) else [things]):
+            s.fwd.append((t['uid'], t.get('pilot'), state))
+    s.advance = advance
+    return s
+
+
+def rr_cmd(s, cmd, **arg):
+    arg.setdefault('tmgr', s._tmgr)
+    return s.control_cb('control_pubsub', {'cmd': cmd, 'arg': arg})
+
+
+def check_rr_history(rp, ops):
+    """run a history of operations on a RoundRobin scheduler and check C12"""
+    FWD = 'TMGR_STAGING_INPUT_PENDING'
+    s = mk_rr(rp)
+    added, probs, n_task = set(), [], [0]
+    for op in ops:
+        kind = op[0]
+        try:
+            if kind == 'add':
+                rr_cmd(s, 'add_pilots', pilots=[{'uid': p, 'state': 'PMGR_ACTIVE'} for p in op[1]])
+                added |= set(op[1])
+            elif kind == 'remove':
+                rr_cmd(s, 'remove_pilots', pids=list(op[1]))
+                added -= set(op[1])
+            elif kind == 'submit':        # ('submit', n, named pilot or None)
+                batch = []
+                for _ in range(op[1]):
+                    n_task[0] += 1
+                    t = {'uid': 'task.%04d' % n_task[0]}
+                    if op[2]: t['pilot'] = op[2]
+                    batch.append(t)
+                before = len(s.fwd)
+                named = op[2]
+                s.work(batch)
+                new = [f for f in s.fwd[before:] if f[2] == FWD]
+                if not named and added:
+                    got = set(f[0] for f in new)
+                    lost = [t['uid'] for t in batch if t['uid'] not in got]
+                    if lost:
+                        probs.append('%s not forwarded although pilots %s are added (%s)'
+                                     % (lost, sorted(added), [f for f in s.fwd[before:] if f[0] in lost]))
+                    loads = dict()
+                    for uid, pid, st in new:
+                        loads[pid] = loads.get(pid, 0) + 1
+                        if pid not in added:
+                            probs.append('%s bound to %s which is not added (added: %s)' % (uid, pid, sorted(added)))
+                    counts = [loads.get(p, 0) for p in s._pids]
+                    if counts and max(counts) - min(counts) > 1:
+                        probs.append('round robin loads %s differ by more than one' % dict(zip(s._pids, counts)))
+                if named:
+                    for uid, pid, st in new:
+                        if pid != named: probs.append('%s named %s but was bound to %s' % (uid, named, pid))
+        except ValueError:
+            pass
+        except Exception as e:
+            probs.append('%s raised %r' % (op, e))
+    fw = dict()
+    for uid, pid, st in s.fwd:
+        if st == FWD: fw[uid] = fw.get(uid, 0) + 1
+    for uid, k in fw.items():
+        if k != 1: probs.append('%s forwarded %d times' % (uid, k))
+    return probs
+
+
+@builder('tmgr/scheduler/base.py:TMGRSchedulingComponent.control_cb',
+         'tmgr/scheduler/base.py:TMGRSchedulingComponent.work',
+         'tmgr/scheduler/base.py:TMGRSchedulingComponent._assign_pilot',
+         'tmgr/scheduler/base.py:TMGRSchedulingComponent._update_pilot_states',
+         'tmgr/scheduler/round_robin.py:RoundRobin._schedule_tasks',
+         'tmgr/scheduler/round_robin.py:RoundRobin._work',
+         'tmgr/scheduler/round_robin.py:RoundRobin.add_pilots',
+         'tmgr/scheduler/round_robin.py:RoundRobin.remove_pilots')
+def tmgr_rr(case, rp):
+    histories = [
+        [('submit', 3, None), ('add', ['p1']), ('submit', 2, None)],
+        [('add', ['p1', 'p2', 'p3']), ('submit', 7, None), ('submit', 2, None)],
+        [('add', ['p1', 'p2']), ('remove', ['p1']), ('submit', 4, None)],
+        [('submit', 2, 'p1'), ('add', ['p1']), ('remove', ['p1']), ('add', ['p1']), ('submit', 1, 'p1')],
+        [('add', ['p1']), ('submit', 2, 'p2'), ('add', ['p2']), ('submit', 3, None)],
+        [('add', ['p1', 'p2']), ('submit', 1, None), ('submit', 1, None), ('submit', 1, None), ('remove', ['p2']), ('submit', 3, None)],
+    ]
+    for k, h in enumerate(histories):
+        probs = check_rr_history(rp, h)
+        if probs:
+            return dict(confirmed=True, detail='; '.join(probs[:3]), input=dict(history=h),
+                        found_by='bounded native histories (%d of %d)' % (k + 1, len(histories)))
+    return dict(confirmed=False, detail='%d scheduler histories hold natively' % len(histories))
